@@ -798,3 +798,210 @@ func randomBytes(r *rand.Rand, max int) Body {
 	}
 	return Body{Data: b, Doc: "bytes", Mut: "random-bytes"}
 }
+
+// noRootBodies are bodies that certainly are not XML documents: non-blank
+// junk without any start tag (text, stray end tags, control bytes).
+func noRootBodies(fam string) []Body {
+	var l []Body
+	for _, g := range []string{"garbage", "</D:mkcol>", "</a></b></c>", "]]>", "not <", "\x00\x01\x02", "</D:propfind></D:multistatus>"} {
+		l = append(l, Body{Data: []byte(g), Doc: fam, Mut: "no-root-junk", Syntax: "xml-syntax:no-root"})
+	}
+	return l
+}
+
+// ---- features: well-formed, grammatical but unusual variants of a seed ------
+
+type feature struct {
+	Name  string
+	Apply func(t *xmltree.Node) bool // false: not applicable to this seed
+}
+
+// replaceSelection replaces the D:prop / D:allprop / D:propname child of the
+// root by repl (nil = remove).
+func replaceSelection(t *xmltree.Node, repl *xmltree.Node) bool {
+	for i, c := range t.Children {
+		if c.Is(nsD, "prop") || c.Is(nsD, "allprop") || c.Is(nsD, "propname") {
+			if repl == nil {
+				t.Children = append(t.Children[:i:i], t.Children[i+1:]...)
+			} else {
+				t.Children[i] = repl
+			}
+			return true
+		}
+	}
+	if repl != nil {
+		prepend(t, repl)
+		return true
+	}
+	return false
+}
+
+func findElem(t *xmltree.Node, space, local string) *xmltree.Node {
+	for _, n := range elems(t) {
+		if n.Is(space, local) {
+			return n
+		}
+	}
+	return nil
+}
+
+func removeChildren(n *xmltree.Node, space, local string) {
+	var keep []*xmltree.Node
+	for _, c := range n.Children {
+		if !c.Is(space, local) {
+			keep = append(keep, c)
+		}
+	}
+	n.Children = keep
+}
+
+func setLimit(v *string) func(t *xmltree.Node) bool {
+	return func(t *xmltree.Node) bool {
+		removeChildren(t, nsR, "limit")
+		if v != nil {
+			t.Add(el(nsR, "limit", el(nsR, "nresults", txt(*v))))
+		}
+		return true
+	}
+}
+
+// featuresFor lists the unusual-but-valid variations of a REPORT document.
+func featuresFor(fam string) []feature {
+	var fs []feature
+	add := func(name string, f func(t *xmltree.Node) bool) { fs = append(fs, feature{name, f}) }
+	add("selection=allprop", func(t *xmltree.Node) bool { return replaceSelection(t, el(nsD, "allprop")) })
+	add("selection=propname", func(t *xmltree.Node) bool { return replaceSelection(t, el(nsD, "propname")) })
+	add("selection=none", func(t *xmltree.Node) bool { return replaceSelection(t, nil) })
+	add("selection=prop-without-data", func(t *xmltree.Node) bool {
+		return replaceSelection(t, el(nsD, "prop", el(nsD, "getetag"), el(nsD, "getcontenttype")))
+	})
+	add("selection=empty-prop", func(t *xmltree.Node) bool { return replaceSelection(t, el(nsD, "prop")) })
+	switch fam {
+	case "addressbook-query":
+		s := func(v string) *string { return &v }
+		add("limit=absent", setLimit(nil))
+		for _, v := range []string{"0", "1", "00", "9223372036854775807", "9223372036854775808", "18446744073709551615"} {
+			add("limit="+v, setLimit(s(v)))
+		}
+		add("limit=empty-element", func(t *xmltree.Node) bool { removeChildren(t, nsR, "limit"); t.Add(el(nsR, "limit")); return true })
+		add("address-data=allprop", func(t *xmltree.Node) bool {
+			return replaceSelection(t, el(nsD, "prop", el(nsR, "address-data", el(nsR, "allprop"))))
+		})
+		add("address-data=empty", func(t *xmltree.Node) bool { return replaceSelection(t, el(nsD, "prop", el(nsR, "address-data"))) })
+		add("test=absent", func(t *xmltree.Node) bool {
+			f := t.First(nsR, "filter")
+			if f == nil {
+				return false
+			}
+			f.Attrs = nil
+			return true
+		})
+		add("test=allof", func(t *xmltree.Node) bool {
+			f := t.First(nsR, "filter")
+			if f == nil {
+				return false
+			}
+			setAttr(f, "test", "allof")
+			return true
+		})
+		add("filter=first-only", func(t *xmltree.Node) bool {
+			f := t.First(nsR, "filter")
+			if f == nil || len(f.Elems()) < 2 {
+				return false
+			}
+			f.Children = f.Children[:1]
+			return true
+		})
+	case "calendar-query":
+		add("calendar-data=empty", func(t *xmltree.Node) bool { return replaceSelection(t, el(nsD, "prop", el(nsC, "calendar-data"))) })
+		add("calendar-data=no-expand", func(t *xmltree.Node) bool {
+			cd := findElem(t, nsC, "calendar-data")
+			if cd == nil || cd.First(nsC, "expand") == nil {
+				return false
+			}
+			removeChildren(cd, nsC, "expand")
+			return true
+		})
+		add("calendar-data=limit-recurrence-set", func(t *xmltree.Node) bool {
+			cd := findElem(t, nsC, "calendar-data")
+			if cd == nil {
+				return false
+			}
+			removeChildren(cd, nsC, "expand")
+			cd.Add(el(nsC, "limit-recurrence-set").With("start", "20240101T000000Z", "end", "20240201T000000Z"))
+			return true
+		})
+		add("timezone=present", func(t *xmltree.Node) bool {
+			t.Add(el(nsC, "timezone", txt("BEGIN:VCALENDAR\r\nVERSION:2.0\r\nPRODID:-//x//EN\r\nBEGIN:VTIMEZONE\r\nTZID:X\r\nEND:VTIMEZONE\r\nEND:VCALENDAR\r\n")))
+			return true
+		})
+	case "calendar-multiget", "addressbook-multiget":
+		add("hrefs=none", func(t *xmltree.Node) bool { removeChildren(t, nsD, "href"); return true })
+		add("hrefs=one-missing", func(t *xmltree.Node) bool {
+			removeChildren(t, nsD, "href")
+			t.Add(el(nsD, "href", txt("/u1/nowhere/x")))
+			return true
+		})
+		add("hrefs=many", func(t *xmltree.Node) bool {
+			hs := t.All(nsD, "href")
+			if len(hs) == 0 {
+				return false
+			}
+			for i := 0; i < 40; i++ {
+				t.Add(hs[0].Clone())
+			}
+			return true
+		})
+		add("hrefs=odd", func(t *xmltree.Node) bool {
+			t.Add(el(nsD, "href", txt("http://other.example/abs")), el(nsD, "href", txt("relative")), el(nsD, "href"))
+			return true
+		})
+		if fam == "calendar-multiget" {
+			add("calendar-data=no-expand", func(t *xmltree.Node) bool {
+				cd := findElem(t, nsC, "calendar-data")
+				if cd == nil || cd.First(nsC, "expand") == nil {
+					return false
+				}
+				removeChildren(cd, nsC, "expand")
+				return true
+			})
+		} else {
+			add("address-data=allprop", func(t *xmltree.Node) bool {
+				return replaceSelection(t, el(nsD, "prop", el(nsR, "address-data", el(nsR, "allprop"))))
+			})
+		}
+	}
+	return fs
+}
+
+// variants returns the seed with each applicable feature applied (each is
+// still a valid document of the family).
+func variants(sd seedDoc) []seedDoc {
+	var l []seedDoc
+	for _, f := range featuresFor(sd.Fam) {
+		t := sd.Tree.Clone()
+		if !f.Apply(t) {
+			continue
+		}
+		l = append(l, seedDoc{Name: sd.Name + " & " + f.Name, Fam: sd.Fam, Tree: t})
+	}
+	return l
+}
+
+// syntaxSubset is a handful of the seed's syntax mutants.
+func syntaxSubset(sd seedDoc) []Body {
+	all := syntaxMutants(sd)
+	if len(all) <= 8 {
+		return all
+	}
+	var l []Body
+	for i := 0; i < 8; i++ {
+		l = append(l, all[i*len(all)/8])
+	}
+	doc := render(sd.Tree, false)
+	_, re := rootSpan(doc)
+	for _, off := range []int{re / 3, 2 * re / 3, re - 1} {
+		l = append(l, Body{Data: doc[:off:off], Doc: sd.Fam, Mut: "truncated:in-root", Root: rootName(sd.Tree), Syntax: "xml-syntax:truncated"})
+	}
+	return l
+}
